@@ -160,6 +160,29 @@ def events_for(pp, rnd, A, tag):
         o, r = call(lambda: (bool(x == y), bool(y == x), bool(x == x)))
         add("eq", out=o, B=B, what=what, ab=r[0] if o == "ret" else False, ba=r[1] if o == "ret" else False,
             aa=r[2] if o == "ret" else False)
+    # equality after an in-place edit of a modification that has already taken part in a comparison (hashing):
+    # the edited object equals an independently built annotation with the same content
+    slots = [sl for sl in ("nterm", "cterm", "unknown", "labile") if A[sl]] + (["interval"] if any(iv["mods"] for iv in A["intervals"]) else [])
+    if slots:
+        sl = rnd.choice(slots)
+        B3 = copy.deepcopy(A)
+        x3, y3 = anngen.build(pp, A), anngen.build(pp, A)
+
+        def h():
+            first = bool(x3 == y3)
+            if sl == "interval":
+                k_ = next(i_ for i_, iv in enumerate(A["intervals"]) if iv["mods"])
+                x3.intervals[k_].mods[0].mult += 1
+                B3["intervals"][k_]["mods"][0]["m"] += 1
+            else:
+                getattr(x3, sl + "_mods")[0].mult += 1
+                B3[sl][0]["m"] += 1
+            z3 = anngen.build(pp, B3)
+            return first, bool(x3 == z3), bool(z3 == x3), bool(x3 == x3)
+        o, r = call(h)
+        evs.append({"op": "eq", "tid": f"{tag}.eqedit.{len(evs)}", "k": "c20", "A": B3, "out": o, "B": B3,
+                    "what": "edited_in_place_" + sl, "ab": r[1] if o == "ret" else False, "ba": r[2] if o == "ret" else False,
+                    "aa": r[3] if o == "ret" else False})
     # same length, same distinct values, different multiplicities at one position: [x, x, y] versus [x, y, y]
     slot = rnd.choice(["nterm", "cterm", "labile", "unknown", "internal"])
     x_, y_ = {"v": "s:Phospho", "m": 1}, {"v": "s:Acetyl", "m": 1}
@@ -195,6 +218,15 @@ def run(tier, seed, rep):
     for i in range(6000 if thorough else 600):
         A = anngen.annotation(rnd, 1, 12, density=0.4, p={"interval": 0.4, "charge": 0.4, "labile": 0.3,
                                                            "unknown": 0.3, "static": 0.3, "isotope": 0.3})
+        if i % 10 == 9:
+            # peptides whose only decorations are written without any bracket: a charge, bare ambiguity intervals
+            A = anngen.empty(A["seq"])
+            n_ = len(A["seq"])
+            if rnd.random() < 0.6:
+                A["charge"] = rnd.choice([1, 2, 3, -1])
+            if rnd.random() < 0.7 or A["charge"] == 0:
+                s_ = rnd.randrange(n_)
+                A["intervals"] = [{"s": s_, "e": rnd.randint(s_ + 1, n_), "amb": rnd.random() < 0.5, "mods": []}]
         jobs.append((rnd.randrange(10 ** 9), A, f"a{i}"))
     evs = [e for lst in core.pmap(_job, jobs) for e in lst]
     res = core.validate_traces("Trace_Annotation", evs, "C20")
